@@ -104,6 +104,13 @@ pub const FRAGMENTS: &[&str] = &[
     "(string? \")\")",
     "(define z 9) (if)",
     "z",
+    // a closing line with more text after the parenthesis that completes the form
+    "2) ; closes the sum",
+    "2) x",
+    // a submission whose LAST form is a definition prints nothing, whatever came before it
+    "(+ x 1) (define w 10)",
+    "x (define-syntax k (syntax-rules () ((k) 5))) ",
+    "(k)",
 ];
 
 #[derive(Debug, PartialEq, Clone)]
@@ -149,7 +156,7 @@ pub fn reference_session(lines: &[&str], predicate: fn(&str) -> bool) -> Result<
                 match last {
                     Ok(Some(Value::Void)) | Ok(None) => {}
                     Ok(Some(v)) => out.push(format!("{}", v)),
-                    Err(e) => err.push(format!("{}", e)),
+                    Err(e) => err.push(strip_locations(&format!("{}", e))),
                 }
                 pending.clear();
             } else {
@@ -159,6 +166,25 @@ pub fn reference_session(lines: &[&str], predicate: fn(&str) -> bool) -> Result<
         out.push("exited. have a nice day.".to_string());
         Transcript { stdout: out, stderr: err }
     })
+}
+
+/// some messages embed a debug dump of a syntax tree with source positions; the reference REPL
+/// evaluates each form re-rendered on one line, so positions inside messages are not compared
+fn strip_locations(s: &str) -> String {
+    let mut out = String::new();
+    let mut rest = s;
+    while let Some(p) = rest.find("location: Some([") {
+        out.push_str(&rest[..p]);
+        out.push_str("location: _");
+        match rest[p..].find("])") {
+            Some(e) => rest = &rest[p + e + 2..],
+            None => {
+                rest = "";
+            }
+        }
+    }
+    out.push_str(rest);
+    out
 }
 
 pub fn binary_session(lines: &[&str]) -> Result<Transcript, String> {
@@ -174,7 +200,7 @@ pub fn binary_session(lines: &[&str]) -> Result<Transcript, String> {
     if !o.status.success() {
         return Err(format!("binary exited with {:?}; stderr: {}", o.status.code(), String::from_utf8_lossy(&o.stderr)));
     }
-    Ok(Transcript { stdout: split(&o.stdout), stderr: split(&o.stderr) })
+    Ok(Transcript { stdout: split(&o.stdout), stderr: split(&o.stderr).iter().map(|l| strip_locations(l)).collect() })
 }
 
 fn session(i: u64, len: usize) -> Vec<&'static str> {
